@@ -455,7 +455,7 @@ def gen_co2(rng, n):
     for _ in range(n):
         y0 = rng.randint(1960, 2030)
         ny = rng.choice([1, 1, 2, 3])
-        s = day("%d-%02d-%02d" % (y0, rng.randint(1, 12), rng.randint(1, 28)))
+        s = day("%d-%02d-%02d" % (y0, rng.randint(1, 12), rng.randint(1, 27)))   # not the 28th: the harvest day (next day) must not be 29 Feb
         e = s + rng.randint(30, 120) + 365 * (ny - 1)
         sy, ey = ts_of(s).year, ts_of(e).year
         if rng.random() < 0.5:
